@@ -47,6 +47,9 @@ def _case_seq3(d, with_iter=True):
     if with_iter:
         for st in range(0, max(0, tot - 2)):
             c.append("itp3 %s %d" % (D, st))
+        if dx and dy and dz:
+            for st in range(1, tot):      # every start with a predecessor, moved by every n inside the extent
+                c.append("itq3 %s %d %d" % (D, st, (st * 7 + 3) % tot))
     return c
 
 
@@ -62,6 +65,9 @@ def _case_seq2(d):
             c.append("fl2 %s %d %d" % (D, x, y))
     for st in range(0, max(0, tot - 2)):
         c.append("itp2 %s %d" % (D, st))
+    if dx and dy:
+        for st in range(1, tot):
+            c.append("itq2 %s %d %d" % (D, st, (st * 5 + 1) % tot))
     return c
 
 
@@ -100,6 +106,7 @@ def _case_large(rng):
     if tot > 4:
         c.append("itp3 %s %d" % (D, rng.randrange(tot - 3)))
         c.append("itp3 %s %d" % (D, tot - 3))
+        c.append("itq3 %s %d %d" % (D, rng.randrange(1, tot), rng.randrange(tot)))
     d2 = _rand_dims(rng, 2, lo, hi, 1 << 64)
     rng.shuffle(d2)
     tot2 = d2[0] * d2[1]
@@ -112,6 +119,7 @@ def _case_large(rng):
         c.append("rs2 %s %d" % (D2, i))
     if tot2 > 4:
         c.append("itp2 %s %d" % (D2, tot2 - 3))
+        c.append("itq2 %s %d %d" % (D2, rng.randrange(1, tot2), rng.randrange(tot2)))
     # int extents (array3D)
     di = _rand_dims(rng, 3, lo, hi, 1 << 31)
     rng.shuffle(di)
